@@ -1,6 +1,6 @@
 """C01 SM3 digest equals GB/T 32905 for every message"""
 from .. import rules_k as K, rules_p as RP, rules_i as I, rules_g as G, frame as FR, paramalg as pa
-from ..prov import Prov, norm, const_int
+from ..prov import Prov, norm, const_int, last
 from ..builder import Canon
 
 J = 'each(Range::Range{0, 64})'
@@ -101,7 +101,24 @@ def run(cx):
     pd = cx.fn('gm_sm3::pad', 'L-LEN64')
     if pd is not None:
         P = Prov(pd, F, cut_loops=True); cn = Canon(pd, P)
-        pushes = [FR.arg_canon(pd, P, cn, b, 1) for b in FR.calls_of(pd, 'push')]
+        # every append to the padded vector, in dominance order (push, extend_from_slice(&x.to_be_bytes()) ..)
+        from ..builder import appends, root_local
+        pushes = []
+        app_blocks = []
+        roots = set()
+        for b_, t_ in pd.calls():
+            if t_['fn']['k'] == 'def' and last(t_['fn']['name']) in ('push', 'extend_from_slice') and t_['args'] and t_['args'][0]['k'] in ('copy', 'move'):
+                r_ = root_local(P, t_['args'][0], b_, len(pd.blocks[b_]['stmts']))
+                if r_ is not None and 'Vec<u8>' in pd.local_ty(t_['args'][0]['pl']['l']):
+                    roots.add(r_)
+        for L_ in sorted(roots):
+            for a_ in appends(pd, P, L_, None):
+                if a_.kind == 'bytesplit':
+                    pushes += [cn.c(x) for x in a_.elem.args]
+                    app_blocks += [a_.block] * len(a_.elem.args)
+                elif a_.kind in ('byte', 'bytes'):
+                    pushes.append(cn.c(a_.elem) if a_.elem is not None else '?')
+                    app_blocks.append(a_.block)
         BL = '(Shl(len($msg), 3) as u64)'
         want = ['128', '0'] + ['(BitAnd(Shr(%s, %d), 255) as u8)' % (BL, s_) for s_ in (56, 48, 40, 32, 24, 16, 8)] + ['(BitAnd(%s, 255) as u8)' % BL]
         alt = ['128', '0'] + ['(Shr(%s, %d) as u8)' % (BL, s_) for s_ in (56, 48, 40, 32, 24, 16, 8)] + ['(%s as u8)' % BL]
@@ -109,11 +126,11 @@ def run(cx):
         # the length is taken from the ORIGINAL message (before 0x80 is appended)
         lens = [b for b in FR.calls_of(pd, 'len')]
         first_len = min(lens) if lens else None
-        pb = FR.calls_of(pd, 'push')
+        pb = sorted(set(app_blocks))
         dom = pd.dominators()
         cx.add('L-LEN64', 'pad/len-before-append', first_len is not None and all(first_len in dom.get(b, ()) for b in pb), 'the bit length is computed before anything is appended', pd.loc())
         loops = pd.sccs()
-        zero = [b for b in pb if FR.arg_canon(pd, P, cn, b, 1) == '0']
+        zero = sorted({b for b, v in zip(app_blocks, pushes) if v == '0'})
         inloop = [b for b in pb if any(b in c for c in loops)]
         cx.add('L-LEN64', 'pad/fill-loop', zero == inloop and len(zero) == 1, 'only the zero fill is inside the loop; 0x80 and the 8 length bytes are appended once', pd.loc())
         fill = [p for _, p, _, _ in G.bool_switches(pd, P) if p.kind == 'eq' and cn.c(p.args[0]).startswith('Rem(len(') and const_int(p.args[1]) == 56]
